@@ -56,9 +56,9 @@ func NewResult() *Result {
 	return &Result{Log: NewEventLog(), Counters: map[string]int64{}, States: map[string]struct{}{}}
 }
 
-func (r *Result) Count(k string)          { r.Counters[k]++ }
-func (r *Result) Add(k string, n int64)   { r.Counters[k] += n }
-func (r *Result) State(parts ...any)      { r.States[fmt.Sprint(parts...)] = struct{}{} }
+func (r *Result) Count(k string)        { r.Counters[k]++ }
+func (r *Result) Add(k string, n int64) { r.Counters[k] += n }
+func (r *Result) State(parts ...any)    { r.States[fmt.Sprint(parts...)] = struct{}{} }
 func (r *Result) HasFingerprint(fp string) bool {
 	for _, v := range r.Violations {
 		if v.Fingerprint == fp {
@@ -210,17 +210,17 @@ func Minimise(e Engine, prop string, p *Plan, fp string, budget time.Duration) (
 
 // ReplayFile is what gets written for a violation.
 type ReplayFile struct {
-	Property    string `json:"property"`
-	Engine      string `json:"engine"`
-	Fingerprint string `json:"fingerprint"`
-	Oracle      string `json:"oracle"`
-	Detail      string `json:"detail"`
-	LogSHA256   string `json:"log_sha256"`
-	Replay      string `json:"replay"` // "exact" | "resampled"
-	MinimisedFromSteps int `json:"minimised_from_steps"`
-	MinimiseExecs      int `json:"minimise_execs"`
-	Plan        *Plan  `json:"plan"`
-	Original    *Plan  `json:"original,omitempty"`
+	Property           string `json:"property"`
+	Engine             string `json:"engine"`
+	Fingerprint        string `json:"fingerprint"`
+	Oracle             string `json:"oracle"`
+	Detail             string `json:"detail"`
+	LogSHA256          string `json:"log_sha256"`
+	Replay             string `json:"replay"` // "exact" | "resampled"
+	MinimisedFromSteps int    `json:"minimised_from_steps"`
+	MinimiseExecs      int    `json:"minimise_execs"`
+	Plan               *Plan  `json:"plan"`
+	Original           *Plan  `json:"original,omitempty"`
 }
 
 func SanitizeFP(fp string) string {
